@@ -32,7 +32,7 @@ class C11(Base):
     AREA = "args"
     LEMMA_FILES = ["FluentProofs/Args.lean", "FluentProofs/BytesOrder.lean"]
     RULE = ("random set/get/iter/into/from_iter/fluent_args! histories over a 14-key alphabet (empty, non-ASCII, "
-            "prefix-related, NUL) with borrowed and owned keys and 25 value tokens; thorough adds the exhaustive family "
+            "prefix-related, NUL) with borrowed and owned keys and 25 value tokens; a many-keys family (9-130 distinct keys in random, ascending or descending order, overwrites, every key and four absent ones looked up); thorough adds the exhaustive family "
             "of <=5 sets over 4 keys followed by all gets and iter. Non-trivial = the history overwrites a key or "
             "inserts out of order (a set whose key is below an earlier key) and observes at least one get/iter; "
             "distinct = distinct case line.")
@@ -70,10 +70,34 @@ class C11(Base):
             ops.append("get:%s:b" % hx(k))
         return "args " + ";".join(ops)
 
+    def gen_many(self, rng):
+        """MANY distinct keys (9..130: several growth steps of the vector, binary search over more than a handful of
+        entries), set in random / ascending / descending order, some overwritten, then all looked up"""
+        n = rng.choice([9, 10, 16, 17, 31, 32, 33, 64, 65, 130])
+        keys = ["k%03d" % i for i in range(n)] if rng.random() < 0.6 else \
+               [rng.choice(["", "a", "é", "日", "z"]) + "%d" % i for i in range(n)]
+        order = list(keys)
+        o = rng.random()
+        if o < 0.5:
+            rng.shuffle(order)
+        elif o < 0.75:
+            order.reverse()
+        ops = ["set:%s:%s:i%d" % (hx(k), rng.choice("bo"), i) for i, k in enumerate(order)]
+        for k in rng.sample(keys, 5):
+            ops.append("set:%s:b:s%s" % (hx(k), hx("again")))
+        ops.append("iter")
+        probe = keys + ["k", "k999", "zz", ""]
+        rng.shuffle(probe)
+        for k in probe:
+            ops.append("get:%s:%s" % (hx(k), rng.choice("bo")))
+        return "args " + ";".join(ops)
+
     def generate(self, rng, tier):
         n = 3000 if tier == "quick" else 150000
         for _ in range(n):
             yield self.gen_history(rng, 24 if rng.random() < 0.9 else 80)
+        for _ in range(100 if tier == "quick" else 5000):
+            yield self.gen_many(rng)
         if tier == "thorough":
             ks = ["a", "ab", "", "é"]
             tail = ";".join(["iter"] + ["get:%s:b" % hx(k) for k in ks])
